@@ -397,16 +397,23 @@ class Array(AbstractValueWithQuantityObject, Generic[ValuesType]):
 
         from ._value_generator import _ValueGenerator
 
+        # a plain number (or numpy array) leaves the quantity of the other operand as it is (the caption
+        # of an unknown unit included), unless the operand with the unit is the divisor
+        kept_quantity = None
+
         # get the quantities and setup the value generator properly
         if IsNumber(p1) or isinstance(p1, numpy.ndarray):
             values_iteration = _ValueGenerator(p1, p2.values)
             q2 = p2.GetQuantity()
             q1 = Quantity.CreateEmpty()
+            if operation not in ("Divide", "FloorDivide"):
+                kept_quantity = q2
 
         elif IsNumber(p2) or isinstance(p2, numpy.ndarray):
             values_iteration = _ValueGenerator(p1.values, p2)
             q1 = p1.GetQuantity()
             q2 = Quantity.CreateEmpty()
+            kept_quantity = q1
 
         else:
             if len(p1.values) != len(p2.values):
@@ -425,6 +432,8 @@ class Array(AbstractValueWithQuantityObject, Generic[ValuesType]):
         if values_iteration.IsNumpy():
             v0, v1 = next(iter(values_iteration))
             q, v = operation_func(q1, q2, v0, v1)
+            if kept_quantity is not None:
+                q = kept_quantity
             return self.__class__.CreateWithQuantity(q, v)  # type:ignore[return-value]
         else:
             # not numpy: create a new structure to hold the values
@@ -439,4 +448,6 @@ class Array(AbstractValueWithQuantityObject, Generic[ValuesType]):
 
             if values_iteration.IsTuple():
                 result = tuple(result)  # type:ignore[assignment]
+            if kept_quantity is not None:
+                q = kept_quantity
             return self.__class__.CreateWithQuantity(q, result)  # type:ignore[return-value]
